@@ -158,10 +158,18 @@ fn check_scaled(before: &ScalableRecipe, after: &ScaledRecipe, factor: f64, src:
     Ok(())
 }
 
+/// all extensions but TIMER_REQUIRES_TIME: timers may have a name only, and scaling must say so
+static NO_TRT: std::sync::LazyLock<cooklang::CooklangParser> =
+    std::sync::LazyLock::new(|| cooklang::CooklangParser::new(cooklang::Extensions::all() - cooklang::Extensions::TIMER_REQUIRES_TIME, BUNDLED.clone()));
+
 pub fn oracle(c: &Case, st: &mut Stats) -> Verdict {
-    let m = build(&c.raw, false);
+    // a fifth of the cases: timers without duration, parsed without TIMER_REQUIRES_TIME
+    let lenient = c.servings % 5 == 0;
+    let m = if lenient { build_ext_with_bare_timers(&c.raw) } else { build(&c.raw, false) };
     let (src, _) = print_recipe(&m, &c.raw.tape);
-    let parse = || EXTENDED.parse(&src);
+    let parser: &cooklang::CooklangParser = if lenient { &NO_TRT } else { &EXTENDED };
+    st.class_if(lenient, "parsed-without-TIMER_REQUIRES_TIME");
+    let parse = || parser.parse(&src);
     let res = parse();
     if !res.is_valid() {
         st.exclude("not a valid recipe (C01's business)");
